@@ -50,8 +50,8 @@ func (c *compiler) module(y *Module) error {
 		}
 	}
 
-	for _, im := range y.imports {
-		if err := c.compileImport(im.module); err != nil {
+	for _, prefix := range sortedImportPrefixes(y.imports) {
+		if err := c.compileImport(y.imports[prefix].module); err != nil {
 			return err
 		}
 	}
@@ -68,14 +68,23 @@ func sortedIdentityNames(identities map[string]*Identity) []string {
 	return names
 }
 
+func sortedImportPrefixes(imports map[string]*Import) []string {
+	prefixes := make([]string, 0, len(imports))
+	for prefix := range imports {
+		prefixes = append(prefixes, prefix)
+	}
+	sort.Strings(prefixes)
+	return prefixes
+}
+
 func (c *compiler) compileImport(m *Module) error {
 	for _, ident := range sortedIdentityNames(m.identities) {
 		if err := c.compile(m.identities[ident]); err != nil {
 			return err
 		}
 	}
-	for _, im := range m.imports {
-		if err := c.compileImport(im.module); err != nil {
+	for _, prefix := range sortedImportPrefixes(m.imports) {
+		if err := c.compileImport(m.imports[prefix].module); err != nil {
 			return err
 		}
 	}
